@@ -129,7 +129,7 @@ type timer struct {
 var durations = []time.Duration{1, 2, time.Second, time.Minute, time.Hour, 24 * time.Hour, 7 * 24 * time.Hour, 30 * 24 * time.Hour, 1500 * time.Millisecond}
 
 func TestPropEpochs(t *testing.T) {
-	drv.Check(t, drv.Cfg{Name: "epoch-timers-and-hooks", Rule: rule, Quick: 1500, Thorough: 120000, Steps: 30, TSteps: 60}, func(rt *rapid.T, c *drv.Case) {
+	drv.Check(t, drv.Cfg{Name: "epoch-timers-and-hooks", Rule: rule, Quick: 1500, Thorough: 30000, Steps: 30, TSteps: 60}, func(rt *rapid.T, c *drv.Case) {
 		key := storetypes.NewKVStoreKey(types.StoreKey)
 		ctx := testutil.DefaultContext(key, storetypes.NewTransientStoreKey("transient_test"))
 		k := epochskeeper.NewKeeper(key)
